@@ -1030,7 +1030,473 @@ fn settings_with_max(max_user: usize) -> PreparationSettings {
     s
 }
 
+
 // ------------------------------------------------------------------------------------------------
+// deterministic boundary family (identical for every seed; runs before the random stream)
+// ------------------------------------------------------------------------------------------------
+fn det_rng(k: u64) -> Rng {
+    Rng::new(0xC32_B0).fork(k)
+}
+fn det_sigs(r: &mut Rng, n: usize) -> Vec<IntentSignatureV1> {
+    let h = hash([n as u8, 9]);
+    let mut v: Vec<IntentSignatureV1> = vec![];
+    while v.len() < n {
+        let s = IntentSignatureV1(gen_sig_with_pk(r, &h));
+        if !v.contains(&s) {
+            v.push(s);
+        }
+    }
+    v
+}
+fn det_blobs(n: usize, salt: u8) -> BlobsV1 {
+    // distinct contents; the middle one is empty when there are three
+    BlobsV1 { blobs: (0..n).map(|i| BlobV1(if n == 3 && i == 1 { vec![] } else { vec![salt, i as u8, 7] })).collect() }
+}
+fn det_children(r: &mut Rng, n: usize) -> ChildSubintentSpecifiersV2 {
+    let mut set = index_set_new();
+    while set.len() < n {
+        set.insert(ChildSubintentSpecifier { hash: random_subintent_hash(r) });
+    }
+    ChildSubintentSpecifiersV2 { children: set }
+}
+/// n = number of elements in every list of the intent core (blobs, children, instructions)
+fn det_core(r: &mut Rng, n: usize, salt: u8) -> IntentCoreV2 {
+    let mut c = gen_core_v2(r, vec![]);
+    c.blobs = det_blobs(n, salt);
+    c.children = det_children(r, n);
+    c.instructions = InstructionsV2((0..n).map(|k| if k % 2 == 0 { DropAuthZoneProofs.into() } else { DropAllProofs.into() }).collect());
+    c.message = if n == 0 { MessageV2::None } else { MessageV2::Plaintext(PlaintextMessageV1::text("hello")) };
+    c.header.min_proposer_timestamp_inclusive = if n == 0 { None } else { Some(Instant::new(10)) };
+    c.header.max_proposer_timestamp_exclusive = if n == 0 { None } else { Some(Instant::new(20)) };
+    c
+}
+fn det_v1(n: usize) -> Tx {
+    let mut r = det_rng(100 + n as u64);
+    let mut t = gen_v1(&mut r);
+    t.signed_intent.intent.blobs = det_blobs(n, 1);
+    t.signed_intent.intent.instructions = InstructionsV1((0..n).map(|k| if k % 2 == 0 { DropAuthZoneProofs.into() } else { DropAllProofs.into() }).collect());
+    t.signed_intent.intent.message = if n == 0 { MessageV1::None } else { MessageV1::Plaintext(PlaintextMessageV1::text("hello")) };
+    t.signed_intent.intent_signatures.signatures = det_sigs(&mut r, n);
+    Tx::V1(t)
+}
+fn det_v2(n: usize) -> Tx {
+    let mut r = det_rng(200 + n as u64);
+    let mut t = gen_v2(&mut r);
+    let s = &mut t.signed_transaction_intent;
+    s.transaction_intent.root_intent_core = det_core(&mut r, n, 2);
+    s.transaction_intent.non_root_subintents = NonRootSubintentsV2((0..n).map(|k| SubintentV2 { intent_core: det_core(&mut r, n.min(2), 10 + k as u8) }).collect());
+    s.transaction_intent_signatures.signatures = det_sigs(&mut r, n);
+    s.non_root_subintent_signatures.by_subintent = (0..n).map(|_| IntentSignaturesV2 { signatures: det_sigs(&mut r, n.min(2)) }).collect();
+    Tx::V2(t)
+}
+fn det_partial(n: usize) -> Tx {
+    let mut r = det_rng(300 + n as u64);
+    let mut t = gen_partial(&mut r);
+    t.partial_transaction.root_subintent = SubintentV2 { intent_core: det_core(&mut r, n, 3) };
+    t.partial_transaction.non_root_subintents = NonRootSubintentsV2((0..n).map(|k| SubintentV2 { intent_core: det_core(&mut r, n.min(2), 20 + k as u8) }).collect());
+    t.root_subintent_signatures.signatures = det_sigs(&mut r, n);
+    t.non_root_subintent_signatures.by_subintent = (0..n).map(|_| IntentSignaturesV2 { signatures: det_sigs(&mut r, n.min(2)) }).collect();
+    Tx::Partial(t)
+}
+/// the root intent core of a V2 / partial transaction
+fn root_core(tx: &mut Tx) -> &mut IntentCoreV2 {
+    match tx {
+        Tx::V2(t) => &mut t.signed_transaction_intent.transaction_intent.root_intent_core,
+        Tx::Partial(t) => &mut t.partial_transaction.root_subintent.intent_core,
+        Tx::V1(_) => panic!("no core in V1"),
+    }
+}
+fn sub_core(tx: &mut Tx, k: usize) -> &mut IntentCoreV2 {
+    match tx {
+        Tx::V2(t) => &mut t.signed_transaction_intent.transaction_intent.non_root_subintents.0[k].intent_core,
+        Tx::Partial(t) => &mut t.partial_transaction.non_root_subintents.0[k].intent_core,
+        Tx::V1(_) => panic!("no subintents in V1"),
+    }
+}
+fn subs_mut(tx: &mut Tx) -> &mut Vec<SubintentV2> {
+    match tx {
+        Tx::V2(t) => &mut t.signed_transaction_intent.transaction_intent.non_root_subintents.0,
+        Tx::Partial(t) => &mut t.partial_transaction.non_root_subintents.0,
+        Tx::V1(_) => panic!("no subintents in V1"),
+    }
+}
+fn root_sigs(tx: &mut Tx) -> &mut Vec<IntentSignatureV1> {
+    match tx {
+        Tx::V1(t) => &mut t.signed_intent.intent_signatures.signatures,
+        Tx::V2(t) => &mut t.signed_transaction_intent.transaction_intent_signatures.signatures,
+        Tx::Partial(t) => &mut t.root_subintent_signatures.signatures,
+    }
+}
+fn batches_mut(tx: &mut Tx) -> &mut Vec<IntentSignaturesV2> {
+    match tx {
+        Tx::V2(t) => &mut t.signed_transaction_intent.non_root_subintent_signatures.by_subintent,
+        Tx::Partial(t) => &mut t.non_root_subintent_signatures.by_subintent,
+        Tx::V1(_) => panic!("no batches in V1"),
+    }
+}
+fn flip_first_byte(s: &mut IntentSignatureV1) {
+    match &mut s.0 {
+        SignatureWithPublicKeyV1::Secp256k1 { signature } => signature.0[64] ^= 1,
+        SignatureWithPublicKeyV1::Ed25519 { signature, .. } => signature.0[63] ^= 1,
+    }
+}
+fn set_children(c: &mut IntentCoreV2, v: Vec<ChildSubintentSpecifier>) {
+    c.children.children = v.into_iter().collect();
+}
+type Pert = (&'static str, Box<dyn Fn(&mut Tx)>, Cover);
+/// position-specific single changes on the three-element shapes: first / middle / last element of every
+/// hashed list, removal of the first / last element, append, swap of the outer elements
+fn positional(kind: &str) -> Vec<Pert> {
+    let mut v: Vec<Pert> = vec![];
+    let sig_cover = if kind == "partial" { Cover::Notarized } else { Cover::Signed };
+    for (name, k) in [("first", 0usize), ("middle", 1), ("last", 2)] {
+        let nm: &'static str = Box::leak(format!("root_signature_{}_bit", name).into_boxed_str());
+        v.push((nm, Box::new(move |t: &mut Tx| flip_first_byte(&mut root_sigs(t)[k])), sig_cover));
+    }
+    v.push(("root_signature_first_removed", Box::new(|t: &mut Tx| { root_sigs(t).remove(0); }), sig_cover));
+    v.push(("root_signature_last_removed", Box::new(|t: &mut Tx| { root_sigs(t).pop(); }), sig_cover));
+    v.push(("root_signatures_outer_swapped", Box::new(|t: &mut Tx| root_sigs(t).swap(0, 2)), sig_cover));
+    v.push(("root_signature_last_duplicated", Box::new(|t: &mut Tx| { let s = root_sigs(t)[2].clone(); root_sigs(t).push(s); }), sig_cover));
+    if kind == "v1" {
+        for (name, k) in [("first", 0usize), ("middle_empty", 1), ("last", 2)] {
+            let nm: &'static str = Box::leak(format!("blob_{}_extended", name).into_boxed_str());
+            v.push((nm, Box::new(move |t: &mut Tx| if let Tx::V1(n) = t { n.signed_intent.intent.blobs.blobs[k].0.push(0) }), Cover::Intent));
+        }
+        v.push(("blob_first_removed", Box::new(|t: &mut Tx| if let Tx::V1(n) = t { n.signed_intent.intent.blobs.blobs.remove(0); }), Cover::Intent));
+        v.push(("blob_last_removed", Box::new(|t: &mut Tx| if let Tx::V1(n) = t { n.signed_intent.intent.blobs.blobs.pop(); }), Cover::Intent));
+        v.push(("blobs_outer_swapped", Box::new(|t: &mut Tx| if let Tx::V1(n) = t { n.signed_intent.intent.blobs.blobs.swap(0, 2) }), Cover::Intent));
+        v.push(("blob_empty_appended", Box::new(|t: &mut Tx| if let Tx::V1(n) = t { n.signed_intent.intent.blobs.blobs.push(BlobV1(vec![])) }), Cover::Intent));
+        v.push(("instruction_last_removed", Box::new(|t: &mut Tx| if let Tx::V1(n) = t { n.signed_intent.intent.instructions.0.pop(); }), Cover::Intent));
+        v.push(("instructions_outer_swapped", Box::new(|t: &mut Tx| if let Tx::V1(n) = t { n.signed_intent.intent.instructions.0.swap(0, 1) }), Cover::Intent));
+        v.push(("message_cleared", Box::new(|t: &mut Tx| if let Tx::V1(n) = t { n.signed_intent.intent.message = MessageV1::None }), Cover::Intent));
+        v.push(("notary_signature_last_byte", Box::new(|t: &mut Tx| if let Tx::V1(n) = t {
+            match &mut n.notary_signature.0 { SignatureV1::Secp256k1(x) => x.0[64] ^= 1, SignatureV1::Ed25519(x) => x.0[63] ^= 1 }
+        }), Cover::Notarized));
+        v.push(("notary_signature_first_byte", Box::new(|t: &mut Tx| if let Tx::V1(n) = t {
+            match &mut n.notary_signature.0 { SignatureV1::Secp256k1(x) => x.0[0] ^= 1, SignatureV1::Ed25519(x) => x.0[0] ^= 1 }
+        }), Cover::Notarized));
+        return v;
+    }
+    // V2 / partial: root core lists
+    for (name, k) in [("first", 0usize), ("middle_empty", 1), ("last", 2)] {
+        let nm: &'static str = Box::leak(format!("root_blob_{}_extended", name).into_boxed_str());
+        v.push((nm, Box::new(move |t: &mut Tx| root_core(t).blobs.blobs[k].0.push(0)), Cover::Intent));
+    }
+    v.push(("root_blob_first_removed", Box::new(|t: &mut Tx| { root_core(t).blobs.blobs.remove(0); }), Cover::Intent));
+    v.push(("root_blob_last_removed", Box::new(|t: &mut Tx| { root_core(t).blobs.blobs.pop(); }), Cover::Intent));
+    v.push(("root_blobs_outer_swapped", Box::new(|t: &mut Tx| root_core(t).blobs.blobs.swap(0, 2)), Cover::Intent));
+    for (name, k) in [("first", 0usize), ("middle", 1), ("last", 2)] {
+        let nm: &'static str = Box::leak(format!("root_child_{}_bit", name).into_boxed_str());
+        v.push((nm, Box::new(move |t: &mut Tx| {
+            let c = root_core(t);
+            let mut l: Vec<ChildSubintentSpecifier> = c.children.children.iter().cloned().collect();
+            let mut b = l[k].hash.as_hash().0;
+            b[31] ^= 1;
+            l[k] = ChildSubintentSpecifier { hash: SubintentHash::from_hash(Hash(b)) };
+            set_children(c, l);
+        }), Cover::Intent));
+    }
+    v.push(("root_child_first_removed", Box::new(|t: &mut Tx| { let c = root_core(t); let mut l: Vec<_> = c.children.children.iter().cloned().collect(); l.remove(0); set_children(c, l); }), Cover::Intent));
+    v.push(("root_child_last_removed", Box::new(|t: &mut Tx| { let c = root_core(t); let mut l: Vec<_> = c.children.children.iter().cloned().collect(); l.pop(); set_children(c, l); }), Cover::Intent));
+    v.push(("root_children_outer_swapped", Box::new(|t: &mut Tx| { let c = root_core(t); let mut l: Vec<_> = c.children.children.iter().cloned().collect(); l.swap(0, 2); set_children(c, l); }), Cover::Intent));
+    v.push(("root_instruction_last_removed", Box::new(|t: &mut Tx| { root_core(t).instructions.0.pop(); }), Cover::Intent));
+    v.push(("root_message_cleared", Box::new(|t: &mut Tx| root_core(t).message = MessageV2::None), Cover::Intent));
+    v.push(("root_min_timestamp_cleared", Box::new(|t: &mut Tx| root_core(t).header.min_proposer_timestamp_inclusive = None), Cover::Intent));
+    v.push(("root_max_timestamp_plus_one", Box::new(|t: &mut Tx| root_core(t).header.max_proposer_timestamp_exclusive = Some(Instant::new(21))), Cover::Intent));
+    // non-root subintents: a field of the first / middle / last one; its blob; removal; swap
+    for (name, k) in [("first", 0usize), ("middle", 1), ("last", 2)] {
+        let nm: &'static str = Box::leak(format!("subintent_{}_discriminator", name).into_boxed_str());
+        v.push((nm, Box::new(move |t: &mut Tx| sub_core(t, k).header.intent_discriminator ^= 1), Cover::Sub(k)));
+        let nm: &'static str = Box::leak(format!("subintent_{}_last_blob_extended", name).into_boxed_str());
+        v.push((nm, Box::new(move |t: &mut Tx| sub_core(t, k).blobs.blobs.last_mut().unwrap().0.push(5)), Cover::Sub(k)));
+        let nm: &'static str = Box::leak(format!("subintent_{}_last_child_removed", name).into_boxed_str());
+        v.push((nm, Box::new(move |t: &mut Tx| { let c = sub_core(t, k); let mut l: Vec<_> = c.children.children.iter().cloned().collect(); l.pop(); set_children(c, l); }), Cover::Sub(k)));
+    }
+    // signature batches of the non-root subintents
+    for (name, k) in [("first", 0usize), ("middle", 1), ("last", 2)] {
+        let nm: &'static str = Box::leak(format!("batch_{}_last_signature_bit", name).into_boxed_str());
+        v.push((nm, Box::new(move |t: &mut Tx| flip_first_byte(batches_mut(t)[k].signatures.last_mut().unwrap())), sig_cover));
+        let nm: &'static str = Box::leak(format!("batch_{}_emptied", name).into_boxed_str());
+        v.push((nm, Box::new(move |t: &mut Tx| batches_mut(t)[k].signatures.clear()), sig_cover));
+    }
+    v.push(("batch_last_removed", Box::new(|t: &mut Tx| { batches_mut(t).pop(); }), sig_cover));
+    v.push(("batch_first_removed", Box::new(|t: &mut Tx| { batches_mut(t).remove(0); }), sig_cover));
+    v.push(("batch_empty_appended", Box::new(|t: &mut Tx| batches_mut(t).push(IntentSignaturesV2 { signatures: vec![] })), sig_cover));
+    v.push(("batches_outer_swapped", Box::new(|t: &mut Tx| batches_mut(t).swap(0, 2)), sig_cover));
+    if kind == "v2" {
+        v.push(("notary_signature_last_byte", Box::new(|t: &mut Tx| if let Tx::V2(n) = t {
+            match &mut n.notary_signature.0 { SignatureV1::Secp256k1(x) => x.0[64] ^= 1, SignatureV1::Ed25519(x) => x.0[63] ^= 1 }
+        }), Cover::Notarized));
+        v.push(("tip_plus_one", Box::new(|t: &mut Tx| if let Tx::V2(n) = t { n.signed_transaction_intent.transaction_intent.transaction_header.tip_basis_points += 1 }), Cover::Intent));
+    }
+    v
+}
+/// changes of the *number* of non-root subintents (every subintent hash list changes length: checked separately)
+fn subintent_count_changes() -> Vec<(&'static str, Box<dyn Fn(&mut Tx)>)> {
+    vec![
+        ("subintent_last_removed", Box::new(|t: &mut Tx| { subs_mut(t).pop(); })),
+        ("subintent_first_removed", Box::new(|t: &mut Tx| { subs_mut(t).remove(0); })),
+        ("subintents_outer_swapped", Box::new(|t: &mut Tx| subs_mut(t).swap(0, 2))),
+        ("subintent_last_duplicated", Box::new(|t: &mut Tx| { let s = subs_mut(t)[2].clone(); subs_mut(t).push(s); })),
+    ]
+}
+fn diff_ids(tx: &Tx, ids: &Ids, ids2: &Ids, cover: Cover) -> Vec<String> {
+    let nsubs = ids.subs.len();
+    let (e_i, e_s, e_n, e_subs) = expected_change(tx, cover, nsubs);
+    let mut bad = Vec::new();
+    if (ids.intent != ids2.intent) != e_i {
+        bad.push(format!("intent hash changed={} expected={}", ids.intent != ids2.intent, e_i));
+    }
+    if (ids.signed != ids2.signed) != e_s {
+        bad.push(format!("signed hash changed={} expected={}", ids.signed != ids2.signed, e_s));
+    }
+    if (ids.notarized != ids2.notarized) != e_n {
+        bad.push(format!("notarized hash changed={} expected={}", ids.notarized != ids2.notarized, e_n));
+    }
+    if ids2.subs.len() != nsubs {
+        bad.push("number of subintent hashes changed".to_string());
+    } else {
+        for k in 0..nsubs {
+            if (ids.subs[k] != ids2.subs[k]) != e_subs[k] {
+                bad.push(format!("subintent {} hash changed={} expected={}", k, ids.subs[k] != ids2.subs[k], e_subs[k]));
+            }
+        }
+    }
+    bad
+}
+/// every field kind the random perturbation can produce on the three-element shapes (floors)
+const SWEEP_FIELDS_V1: [&str; 20] = [
+    "v1.network_id", "v1.start_epoch", "v1.end_epoch", "v1.nonce", "v1.notary_public_key", "v1.notary_is_signatory",
+    "v1.tip_percentage", "v1.notary_signature", "v1.signature_added", "v1.signature_removed", "v1.signatures_swapped",
+    "v1.signature_bit", "v1.blob_added", "v1.blob_removed", "v1.blob_extended", "v1.blob_bit", "v1.message_changed",
+    "v1.message_cleared", "v1.instruction_inserted", "v1.instruction_removed",
+];
+const SWEEP_CORE_FIELDS: [&str; 18] = [
+    "network_id", "start_epoch", "end_epoch", "min_proposer_timestamp", "max_proposer_timestamp", "intent_discriminator",
+    "blob_added", "blob_removed", "blob_extended", "blob_bit", "message_changed", "message_cleared", "child_added",
+    "child_removed", "children_swapped", "child_bit", "instruction_inserted", "instruction_removed",
+];
+
+fn boundary_block(report: &mut Report, cw: &mut CaseWriter, oracle_only: bool) {
+    let latest = PreparationSettings::latest();
+    // ---- shapes: every hashed list empty / single / three elements, for the three transaction kinds
+    let shapes: Vec<(&'static str, Tx)> = vec![
+        ("v1_empty_lists", det_v1(0)), ("v1_single_elements", det_v1(1)), ("v1_three_elements", det_v1(3)),
+        ("v2_empty_lists", det_v2(0)), ("v2_single_elements", det_v2(1)), ("v2_three_elements", det_v2(3)),
+        ("partial_empty_lists", det_partial(0)), ("partial_single_elements", det_partial(1)), ("partial_three_elements", det_partial(3)),
+    ];
+    for (name, tx) in shapes.iter() {
+        let class = format!("b_shape_{}", name);
+        report.floor(&class, 1);
+        let payload = payload_of(tx);
+        let pj = json!({"boundary": name, "payload_hex": vh_common::hex(&payload)});
+        let ids = match ids_of(tx) {
+            Ok(x) => x,
+            Err(e) => {
+                report.oracle_failure(0, "", &format!("boundary shape {} does not prepare: {}", name, e), pj);
+                continue;
+            }
+        };
+        report.count(&class);
+        report.case(&vh_common::hex(&payload), true);
+        if !oracle_only {
+            cw.push(hash_case(tx, &ids));
+        }
+        // every envelope mutation of every shape goes to the Coq envelope model (not a random pick)
+        let mut r = det_rng(7);
+        for ec in env_mutations(tx, &payload, &mut r) {
+            let settings = settings_with_max(ec.max_user);
+            let class_e = format!("b_env_{}_{}", name, ec.name);
+            report.floor(&class_e, 1);
+            match catch(AssertUnwindSafe(|| prepare_payload(ec.entry, &ec.payload, &settings))) {
+                Err(p) => report.oracle_failure(0, "", &format!("{} {}: prepare panicked: {}", name, ec.name, p), pj.clone()),
+                Ok(r) => {
+                    let c = match &r { Ok(_) => 0u8, Err(e) => error_class(e) };
+                    report.count(&class_e);
+                    if ec.must_reject != (c != 0) {
+                        report.oracle_failure(0, "", &format!("{} {}: must_reject={} class={}", name, ec.name, ec.must_reject, c), pj.clone());
+                    }
+                    if !oracle_only {
+                        cw.push(format!("CEnv {} {} {} {} {}", ec.entry, ec.max_user, coq_bytes(&ec.payload), coq_option(ec.consumed.map(|n| n.to_string())), c));
+                    }
+                }
+            }
+        }
+        // headers inside the payload (first field): value kind, declared field count, non-minimal size;
+        // the envelope model treats them as a failing field decoder (any error class)
+        if payload.len() > 8 {
+            let inner: Vec<(&'static str, Vec<u8>)> = vec![
+                ("inner_value_kind", { let mut p = payload.clone(); p[4] = 0x20; p }),
+                ("inner_field_count_plus", { let mut p = payload.clone(); p[5] += 1; p }),
+                ("inner_field_count_minus", { let mut p = payload.clone(); p[5] -= 1; p }),
+                ("inner_noncanonical_size", { let mut p = payload.clone(); let n = p[5]; p[5] = n | 0x80; p.insert(6, 0); p }),
+                ("inner_noncanonical_size_4_bytes", { let mut p = payload.clone(); let n = p[5]; p[5] = n | 0x80; p.insert(6, 0x80); p.insert(7, 0x80); p.insert(8, 0x00); p }),
+                ("last_byte_dropped", payload[..payload.len() - 1].to_vec()),
+                ("one_zero_byte_appended", { let mut p = payload.clone(); p.push(0); p }),
+            ];
+            for (iname, pl) in inner {
+                let class_e = format!("b_env_{}_{}", name, iname);
+                report.floor(&class_e, 1);
+                let e = typed_entry(tx);
+                match catch(AssertUnwindSafe(|| prepare_payload(e, &pl, &latest))) {
+                    Err(p) => report.oracle_failure(0, "", &format!("{} {}: prepare panicked: {}", name, iname, p), pj.clone()),
+                    Ok(r) => {
+                        report.count(&class_e);
+                        let c = match &r { Ok(_) => 0u8, Err(e) => error_class(e) };
+                        if c == 0 {
+                            report.oracle_failure(0, "", &format!("{} {}: non-canonical payload accepted", name, iname), pj.clone());
+                        }
+                        if !oracle_only {
+                            let consumed = if iname == "one_zero_byte_appended" { Some(payload.len() - 4) } else { None };
+                            cw.push(format!("CEnv {} {} {} {} {}", e, 1024 * 1024, coq_bytes(&pl), coq_option(consumed.map(|n| n.to_string())), c));
+                        }
+                    }
+                }
+            }
+        }
+    }
+    // ---- positional perturbations on the three-element shapes
+    for (kind, base) in [("v1", det_v1(3)), ("v2", det_v2(3)), ("partial", det_partial(3))] {
+        let ids = ids_of(&base).expect("base prepares");
+        let payload = payload_of(&base);
+        for (name, f, cover) in positional(kind) {
+            let class = format!("b_pos_{}_{}", kind, name);
+            report.floor(&class, 1);
+            let mut t2 = base.clone();
+            f(&mut t2);
+            let p2 = payload_of(&t2);
+            let pj = json!({"boundary": class, "payload_hex": vh_common::hex(&payload), "perturbed_payload_hex": vh_common::hex(&p2)});
+            if p2 == payload {
+                report.oracle_failure(0, "", &format!("harness: {} did not change the encoding", class), pj);
+                continue;
+            }
+            match ids_of(&t2) {
+                Err(e) => report.oracle_failure(0, "", &format!("{}: perturbed transaction does not prepare: {}", class, e), pj),
+                Ok(ids2) => {
+                    report.count(&class);
+                    let bad = diff_ids(&base, &ids, &ids2, cover);
+                    if !bad.is_empty() {
+                        report.oracle_failure(0, "", &format!("{}: {}", class, bad.join("; ")), pj);
+                    }
+                    if !oracle_only {
+                        cw.push(hash_case(&t2, &ids2));
+                    }
+                }
+            }
+        }
+        if kind != "v1" {
+            for (name, f) in subintent_count_changes() {
+                let class = format!("b_pos_{}_{}", kind, name);
+                report.floor(&class, 1);
+                let mut t2 = base.clone();
+                f(&mut t2);
+                let p2 = payload_of(&t2);
+                let pj = json!({"boundary": class, "payload_hex": vh_common::hex(&payload), "perturbed_payload_hex": vh_common::hex(&p2)});
+                match ids_of(&t2) {
+                    Err(e) => report.oracle_failure(0, "", &format!("{}: does not prepare: {}", class, e), pj),
+                    Ok(ids2) => {
+                        report.count(&class);
+                        // the root subintent hash of a partial transaction does not cover the other subintents
+                        let intent_changes = kind == "v2";
+                        if (ids.intent != ids2.intent) != intent_changes || ids.signed == ids2.signed || ids.notarized == ids2.notarized {
+                            report.oracle_failure(0, "", &format!("{}: identifiers do not reflect the changed subintent list", class), pj);
+                        }
+                        if !oracle_only {
+                            cw.push(hash_case(&t2, &ids2));
+                        }
+                    }
+                }
+            }
+        }
+    }
+    // ---- every field kind of the random perturbation, found with fixed generator forks
+    for (kind, base) in [("v1", det_v1(3)), ("v2", det_v2(3)), ("partial", det_partial(3))] {
+        let ids = ids_of(&base).expect("base prepares");
+        let payload = payload_of(&base);
+        let mut seen = std::collections::BTreeSet::new();
+        for t in 0..1500u64 {
+            let mut r = det_rng(10_000 + t);
+            let mut t2 = base.clone();
+            let (field, cover) = perturb(&mut t2, &mut r);
+            if !seen.insert(field.clone()) {
+                continue;
+            }
+            let class = format!("b_field_{}", field);
+            let p2 = payload_of(&t2);
+            if p2 == payload {
+                continue;
+            }
+            if let Ok(ids2) = ids_of(&t2) {
+                report.count(&class);
+                let bad = diff_ids(&base, &ids, &ids2, cover);
+                if !bad.is_empty() {
+                    report.oracle_failure(0, "", &format!("{}: {}", class, bad.join("; ")), json!({"boundary": class, "payload_hex": vh_common::hex(&payload), "perturbed_payload_hex": vh_common::hex(&p2)}));
+                }
+                if !oracle_only && kind == "v1" {
+                    cw.push(hash_case(&t2, &ids2));
+                }
+            }
+        }
+        match kind {
+            "v1" => {
+                for f in SWEEP_FIELDS_V1 {
+                    report.floor(&format!("b_field_{}", f), 1);
+                }
+            }
+            _ => {
+                for part in ["root", "sub"] {
+                    for f in SWEEP_CORE_FIELDS {
+                        report.floor(&format!("b_field_{}.{}.{}", kind, part, f), 1);
+                    }
+                }
+            }
+        }
+    }
+    // ---- array limits of the preparation (oracle only; modelled in C34): limit accepted, limit + 1 rejected
+    let limit_cases: Vec<(&'static str, Tx, bool)> = {
+        let mut v: Vec<(&'static str, Tx, bool)> = vec![];
+        for (n, ok) in [(64usize, true), (65, false)] {
+            let mut t = det_v1(1);
+            if let Tx::V1(x) = &mut t {
+                x.signed_intent.intent.blobs = BlobsV1 { blobs: (0..n).map(|i| BlobV1(vec![i as u8])).collect() };
+            }
+            v.push((if ok { "v1_blobs_64" } else { "v1_blobs_65" }, t, ok));
+            let mut t = det_v2(1);
+            sub_core(&mut t, 0).blobs = BlobsV1 { blobs: (0..n).map(|i| BlobV1(vec![i as u8])).collect() };
+            v.push((if ok { "v2_subintent_blobs_64" } else { "v2_subintent_blobs_65" }, t, ok));
+        }
+        for (n, ok) in [(32usize, true), (33, false)] {
+            let mut r = det_rng(55);
+            let mut t = det_v2(1);
+            root_core(&mut t).children = det_children(&mut r, n);
+            v.push((if ok { "v2_children_32" } else { "v2_children_33" }, t, ok));
+            let mut t = det_partial(1);
+            let s = subs_mut(&mut t)[0].clone();
+            *subs_mut(&mut t) = (0..n).map(|k| { let mut x = s.clone(); x.intent_core.header.intent_discriminator = k as u64; x }).collect();
+            v.push((if ok { "partial_subintents_32" } else { "partial_subintents_33" }, t, ok));
+            let mut t = det_v2(1);
+            *batches_mut(&mut t) = (0..n).map(|_| IntentSignaturesV2 { signatures: vec![] }).collect();
+            v.push((if ok { "v2_batches_32" } else { "v2_batches_33" }, t, ok));
+        }
+        v
+    };
+    for (name, tx, ok) in limit_cases {
+        let class = format!("b_limit_{}", name);
+        report.floor(&class, 1);
+        let payload = payload_of(&tx);
+        let e = typed_entry(&tx);
+        match catch(AssertUnwindSafe(|| prepare_payload(e, &payload, &latest))) {
+            Err(p) => report.oracle_failure(0, "", &format!("{}: prepare panicked: {}", class, p), json!({"boundary": class})),
+            Ok(r) => {
+                report.count(&class);
+                let c = match &r { Ok(_) => 0u8, Err(e) => error_class(e) };
+                if (c == 0) != ok || (!ok && c != 11) {
+                    report.oracle_failure(0, "", &format!("{}: expected {} got class {}", class, if ok { "accepted" } else { "TooManyValues" }, c), json!({"boundary": class, "payload_hex": vh_common::hex(&payload)}));
+                }
+            }
+        }
+    }
+}
 
 fn main() {
     let args = Args::parse();
@@ -1045,6 +1511,7 @@ fn main() {
     let mut cw = CaseWriter::new("RV.Corr.C32_run RV.Model.C32_TxHash", "check");
     let root = Rng::new(args.seed);
     let latest = PreparationSettings::latest();
+    boundary_block(&mut report, &mut cw, args.oracle_only);
     for i in 0..args.cases {
         let mut rng = root.fork(i as u64);
         let tx = match i % 5 {
